@@ -29,7 +29,10 @@ CONSTANTS MaxAtom,              \* atom numbers 1..MaxAtom
           ResetChangedOnAbort,  \* a failed transaction also restores the pending set
           DiscardOnDelete,      \* deleting an atom removes it from the pending set
           RecalcAllOnCommit,    \* commit recomputes the hydrogens of every atom (charges may have changed anywhere)
-          InitSlotsOnCopy       \* copy / substructure / union results have their own (empty) pending set and no snapshot
+          InitSlotsOnCopy,      \* copy / substructure / union results have their own (empty) pending set and no snapshot
+          RestoreCacheOnAbort,  \* a failed transaction takes the snapshot's memoised views back (ring / component views read
+                                \*   inside the block describe the abandoned structure)
+          FullFlushOnSpecialDelete  \* deleting a coordinate (order 8) bond drops every view, components included
 
 Nums == 1..MaxAtom
 Elems == {6, 7, 8}
@@ -64,8 +67,8 @@ InTx(o) == o.tx.open
 Ready(o) == o.live /\ o.usable
 
 (* ---- the common tail of every structural mutator: flush, then fix_structure unless inside a transaction ---- *)
-AfterMut(o, o1, newchanged, flush) ==
-  LET o2 == [o1 EXCEPT !.cache = IF flush THEN <<>> ELSE o.cache]
+AfterMut(o, o1, newchanged, newcache) ==
+  LET o2 == [o1 EXCEPT !.cache = newcache]
       live == Atoms(o1)
   IN IF InTx(o) THEN [o2 EXCEPT !.changed = newchanged, !.hfresh = (o.hfresh \cap live) \ newchanged]
      ELSE IF newchanged \subseteq live
@@ -79,19 +82,21 @@ DoAddAtom(o, n, e) ==
                         !.rad = TLCEval([x \in Atoms(o) \cup {n} |-> IF x = n THEN FALSE ELSE o.rad[x]]),
                         !.x = TLCEval([y \in Atoms(o) \cup {n} |-> IF y = n THEN 0 ELSE o.x[y]]),
                         !.nbr = TLCEval([x \in Atoms(o) \cup {n} |-> IF x = n THEN <<>> ELSE o.nbr[x]])],
-           o.changed \cup {n}, TRUE)
+           o.changed \cup {n}, <<>>)
 CanAddAtom(o, n) == Ready(o) /\ n \notin Atoms(o)
 
 DoAddBond(o, a, b, k) ==
   AfterMut(o, [o EXCEPT !.nbr = [@ EXCEPT ![a] = Append(@, b), ![b] = Append(@, a)],
                         !.bo = TLCEval([q \in DOMAIN o.bo \cup {{a, b}} |-> IF q = {a, b} THEN k ELSE o.bo[q]])],
-           IF k = 8 THEN o.changed ELSE o.changed \cup {a, b}, TRUE)
+           IF k = 8 THEN o.changed ELSE o.changed \cup {a, b}, <<>>)
 CanAddBond(o, a, b) == Ready(o) /\ a # b /\ {a, b} \subseteq Atoms(o) /\ {a, b} \notin DOMAIN o.bo
 
 DoDelBond(o, a, b) ==
   AfterMut(o, [o EXCEPT !.nbr = [@ EXCEPT ![a] = RemoveFromSeq(@, b), ![b] = RemoveFromSeq(@, a)],
                         !.bo = Restrict(o.bo, DOMAIN o.bo \ {{a, b}})],
-           IF o.bo[{a, b}] = 8 THEN o.changed ELSE o.changed \cup {a, b}, FlushOnDelete)
+           IF o.bo[{a, b}] = 8 THEN o.changed ELSE o.changed \cup {a, b},
+           IF ~FlushOnDelete THEN o.cache
+           ELSE IF o.bo[{a, b}] = 8 /\ ~FullFlushOnSpecialDelete THEN Flushed(o, TRUE, TRUE) ELSE <<>>)
 CanDelBond(o, a, b) == Ready(o) /\ {a, b} \in DOMAIN o.bo
 
 DoDelAtom(o, n) ==
@@ -101,7 +106,8 @@ DoDelAtom(o, n) ==
                            !.rad = Restrict(@, rest), !.x = Restrict(@, rest),
                            !.nbr = TLCEval([x \in rest |-> RemoveFromSeq(o.nbr[x], n)]),
                            !.bo = Restrict(o.bo, { q \in DOMAIN o.bo : n \notin q })],
-              IF DiscardOnDelete THEN (o.changed \cup touched) \ {n} ELSE o.changed \cup touched, FlushOnDelete)
+              IF DiscardOnDelete THEN (o.changed \cup touched) \ {n} ELSE o.changed \cup touched,
+              IF FlushOnDelete THEN <<>> ELSE o.cache)
 CanDelAtom(o, n) == Ready(o) /\ n \in Atoms(o)
 
 \* remap: f is a partial map old -> new; result must stay injective
@@ -122,11 +128,13 @@ CanRemap(o, f) == /\ Ready(o) /\ DOMAIN f \subseteq Nums
                   /\ Cardinality({ f[n] : n \in DOMAIN f }) = Cardinality(DOMAIN f)
                   /\ ((Atoms(o) \ DOMAIN f) \cap { f[n] : n \in DOMAIN f }) = {}
 
-(* ---- reading a derived view (outside transactions): memoised, returns the cached footprint's value ---- *)
+(* ---- reading a derived view: memoised, returns the cached footprint's value.  Ring and component views may also be read inside
+        a transaction (every structural mutator drops them at once, also there); the views that depend on hydrogen counts and
+        labels may not (those are recomputed at commit only) ---- *)
 DoRead(o, v) == IF v \in DOMAIN o.cache THEN o
                 ELSE [o EXCEPT !.cache = [w \in DOMAIN o.cache \cup {v} |-> IF w = v THEN Foot(v, o) ELSE o.cache[w]]]
 ReadValue(o, v) == IF v \in DOMAIN o.cache THEN o.cache[v] ELSE Foot(v, o)
-CanRead(o) == Ready(o) /\ ~InTx(o)
+CanRead(o, v) == Ready(o) /\ (~InTx(o) \/ v \in {"rings", "comps"})
 
 (* ---- transactions ---- *)
 Snapshot(o) == [open |-> TRUE, ord |-> o.ord, el |-> o.el, chg |-> o.chg, rad |-> o.rad, x |-> o.x, nbr |-> o.nbr, bo |-> o.bo,
@@ -147,7 +155,7 @@ DoCommit(o) ==
           ELSE [o EXCEPT !.usable = FALSE]                         \* KeyError inside __exit__: still in the transaction
 DoAbort(o) ==
   [o EXCEPT !.ord = o.tx.ord, !.el = o.tx.el, !.chg = o.tx.chg, !.rad = o.tx.rad, !.x = o.tx.x, !.nbr = o.tx.nbr, !.bo = o.tx.bo,
-            !.hfresh = o.tx.hfresh, !.cache = o.tx.cache,
+            !.hfresh = o.tx.hfresh, !.cache = IF RestoreCacheOnAbort THEN o.tx.cache ELSE Flushed(o, TRUE, TRUE),
             !.changed = IF ResetChangedOnAbort THEN o.tx.changed ELSE o.changed,
             !.tx = NoTx]
 CanEnd(o) == Ready(o) /\ InTx(o)
@@ -187,7 +195,7 @@ AddAtom(id, n, e) == CanAddAtom(objs[id], n) /\ Upd(id, DoAddAtom(objs[id], n, e
 AddBond(id, a, b, k) == CanAddBond(objs[id], a, b) /\ Upd(id, DoAddBond(objs[id], a, b, k))
 DelBond(id, a, b) == CanDelBond(objs[id], a, b) /\ Upd(id, DoDelBond(objs[id], a, b))
 DelAtom(id, n) == CanDelAtom(objs[id], n) /\ Upd(id, DoDelAtom(objs[id], n))
-Read(id, v) == CanRead(objs[id]) /\ Upd(id, DoRead(objs[id], v))
+Read(id, v) == CanRead(objs[id], v) /\ Upd(id, DoRead(objs[id], v))
 Begin(id) == CanBegin(objs[id]) /\ Upd(id, DoBegin(objs[id]))
 SetCharge(id, n, c) == CanSet(objs[id], n) /\ objs[id].chg[n] # c /\ Upd(id, DoSetCharge(objs[id], n, c))
 SetRadical(id, n) == CanSet(objs[id], n) /\ Upd(id, DoSetRadical(objs[id], n, ~objs[id].rad[n]))
@@ -217,8 +225,9 @@ Spec == Init /\ [][Next]_vars
 
 (* ---- properties ---- *)
 Live == { id \in Objs : objs[id].live }
-CacheCoherent == \A id \in Live : (~InTx(objs[id]) /\ objs[id].usable) =>
-                    \A v \in DOMAIN objs[id].cache : objs[id].cache[v] = Foot(v, objs[id])
+\* every memoised view that may be read in the current state equals the view of the current structure
+CacheCoherent == \A id \in Live : objs[id].usable =>
+                    \A v \in DOMAIN objs[id].cache : CanRead(objs[id], v) => objs[id].cache[v] = Foot(v, objs[id])
 HydrogensFresh == \A id \in Live : (~InTx(objs[id]) /\ objs[id].usable) => objs[id].hfresh = Atoms(objs[id])
 StaysUsable == \A id \in Live : objs[id].usable
 AdjacencySymmetric == \A id \in Live : LET o == objs[id] IN
